@@ -206,7 +206,9 @@ func (r Rng) latticePoint(w Win, h, v int64) Pt {
 		p.U = nk // east edge: lon = +180 in absolute mode / at the world edge
 	}
 	y := r.edgeIn(0, (int64(1)<<uint(h))-1)
-	p.W = y*cell + r.In(cell/4, 3*cell/4)
+	// inside the row, as close to its borders as the model still decides at this real zoom (TraceOps.LatDecidedReal)
+	g := (cell + rowMarginDiv(w.H0+h) - 1) / rowMarginDiv(w.H0+h)
+	p.W = y*cell + r.Pick(g, cell-g, r.In(g, cell-g), r.In(g, cell-g))
 	// altitude
 	var f int64
 	nv := int64(1) << uint(v)
@@ -228,6 +230,18 @@ func (r Rng) latticePoint(w Win, h, v int64) Pt {
 		p.A = r.Pick(-1, 1) * (int64(1) << uint(ka)) // |alt| = 2^25, the domain edge
 	}
 	return p
+}
+
+// rowMarginDiv: a lattice point's row is decided by the model when it lies at least 1/D of a row from the row's
+// borders; D depends on the real zoom (see TraceOps.LatDecidedReal)
+func rowMarginDiv(realH int64) int64 {
+	switch {
+	case realH <= 28:
+		return 64
+	case realH <= 31:
+		return 16
+	}
+	return 4
 }
 
 func (w Win) touchesNorth(k int64) bool { return w.Abs || w.Y0 == 0 }
@@ -805,7 +819,8 @@ func evPointsReal(t *Tracer, w Win, lons, lats, alts []float64, h, v int64) {
 		}
 		// the row must be one the model decides (a quarter row away from the borders of zoom h)
 		cell := int64(1) << uint(k-h)
-		if rr := ((m.W % cell) + cell) % cell; 4*rr < cell || 4*rr > 3*cell {
+		gm := (cell + rowMarginDiv(w.H0+h) - 1) / rowMarginDiv(w.H0+h)
+		if rr := ((m.W % cell) + cell) % cell; rr < gm || rr > cell-gm {
 			return
 		}
 		if abs64(m.U) >= farLimit || abs64(m.W) >= farLimit || abs64(m.A) >= farLimit {
